@@ -208,14 +208,26 @@ def check_intrinsics(case: typing.Any, ctx: Ctx) -> Info:
                 return None
             return set(rbls.explicit(tr))
 
-        def emit_section(sec_spec: typing.Any) -> None:
+        def emit_section(sec_spec: typing.Any, sealed_pos: typing.Optional[int]) -> None:
             sbody = sec_spec[1] if sec_spec[0] == "delim" else sec_spec
             fsb = layout.freeze(sbody)
+            # @sealed may stand anywhere in its section (unlike @extent, which closes it): before the first field, between two fields...
+            sealed_at = None
+            if sec_spec[0] != "delim" and sealed_pos is not None:
+                sealed_at = sealed_pos % (len(sbody[1]) + 1)
+                if sealed_at == len(sbody[1]):
+                    sealed_at = None  # the usual place, after the last field
             if fsb[0] == "union":
                 lines.append("@union")
             if fsb[0] == "struct":
                 emit_query("_offset_", "set", {0})
             for i, (fname, ft) in enumerate(sbody[1]):
+                if sealed_at == i:
+                    lines.append("@sealed")
+                    if fsb[0] == "struct":
+                        s0 = try_explicit(layout.struct_body(fsb[1], upto=i)) if i else {0}
+                        if s0 is not None:
+                            emit_query("_offset_", "set", s0)
                 lines.append((dsdl_type_text(ft, tb.refs) + " " + fname).strip())
                 if fsb[0] == "struct":
                     s = try_explicit(layout.struct_body(fsb[1], upto=i + 1))
@@ -227,7 +239,7 @@ def check_intrinsics(case: typing.Any, ctx: Ctx) -> Info:
                     emit_query("_offset_", "set", s)
             if sec_spec[0] == "delim":
                 lines.append("@extent %d" % layout.extent(layout.freeze(sec_spec)))
-            else:
+            elif sealed_at is None:
                 lines.append("@sealed")
 
         response = case.get("response")
@@ -237,7 +249,7 @@ def check_intrinsics(case: typing.Any, ctx: Ctx) -> Info:
             rbody = response[1] if response[0] == "delim" else response
             for _, ft in rbody[1]:
                 tb.emit(ft)
-        emit_section(top_spec)
+        emit_section(top_spec, case.get("sealed_pos"))
         deps = [x for x in tb.order if x[1] != top_fn]
         for dep_spec, dep_fn in deps:
             ref = dep_fn[: -len(".dsdl")]
@@ -249,7 +261,7 @@ def check_intrinsics(case: typing.Any, ctx: Ctx) -> Info:
         if response is not None:
             # a service: the response section starts from scratch (no field of the request is before any of its points)
             lines.append("---")
-            emit_section(response)
+            emit_section(response, case.get("sealed_pos_response"))
         tb.files[top_fn] = "\n".join(lines) + "\n"
         root = tb.write()
         prints: typing.List[typing.Tuple[str, int, str]] = []
@@ -328,7 +340,8 @@ def parts(ctx: Ctx) -> typing.List[Part]:
         Part("array-elements", _array_cases(), check_array_offsets, weight=1),
         Part(
             "intrinsics",
-            st.fixed_dictionaries({"spec": gt.composites(gt.small_capacity(), max_leaves=6), "response": st.one_of(st.none(), gt.composites(gt.small_capacity(), max_leaves=4))}),
+            st.fixed_dictionaries({"spec": gt.composites(gt.small_capacity(), max_leaves=6), "response": st.one_of(st.none(), gt.composites(gt.small_capacity(), max_leaves=4)),
+                                   "sealed_pos": st.one_of(st.none(), st.integers(0, 8)), "sealed_pos_response": st.one_of(st.none(), st.integers(0, 8))}),
             check_intrinsics, weight=2, cost=5.0,
         ),
     ]
